@@ -191,8 +191,10 @@ def generate(rng, tier):
     for (n, m1, m2) in TF:
         for elt in ('f64', 'cplx'):
             pats = ["tiny-sub", "neg-diag", "zero-diag", "mixed", "all-neg"]
-            pat = pats[g.below(len(pats))] if not thorough else None
-            for p in ([pat] if pat else pats):
+            # one pattern per (triple, element type) in the quick tier, two in the thorough tier (printing 64-bit
+            # patterns is what the model side spends its time on)
+            chosen = g.shuffle(pats)[:(2 if thorough else 1)]
+            for p in chosen:
                 sc = 10.0 ** g.range(-6, 6) if g.chance(1, 3) else 1.0
                 wild = g.chance(1, 4)
                 B0 = gen_band(g, p, n, m1, m2, 'f64', pads=(PAD_WILD if wild else PAD_F64))
